@@ -14,8 +14,10 @@
              'invariants': ['__CPROVER_same_object(a, g_a0) && __CPROVER_same_object(b, g_b0)',
                             'C19_POFF(g_a0) <= C19_POFF(a) && C19_POFF(a) <= g_Ta && C19_POFF(g_b0) <= C19_POFF(b) && C19_POFF(b) <= g_Tb',
                             'C19_POFF(a) - C19_POFF(g_a0) == C19_POFF(b) - C19_POFF(g_b0)',
-                            'g_cmp_k < C19_POFF(a) - C19_POFF(g_a0) ==> (g_a0[g_cmp_k] == g_b0[g_cmp_k] && !C19_PEND(g_a0[g_cmp_k]))'],
+                            'g_cmp_k < C19_POFF(a) - C19_POFF(g_a0) ==> (g_a0[g_cmp_k] == g_b0[g_cmp_k] && !C19_PEND(g_a0[g_cmp_k]))',
+                            'C19_POFF(a) > C19_POFF(g_a0) ==> (!C19_PEND(g_a0[0]) && !C19_PEND(g_b0[0]))'],
              'decreases': 'g_Ta - C19_POFF(a)'}],
+ 'solver': 'cadical',
  'witness': {'unwind': 9},
 } @*/
 #include "c19_path_contracts.h"
@@ -42,5 +44,6 @@ void harness(void)
     int r = path_compare_node(a, b);
 
     __CPROVER_assert(C19_CMP_POST(r, a, b), "compare_node: contract clause C19_CMP_POST (lexicographic comparison of the two components)");
+    __CPROVER_assert(C19_CMP_POST_LIGHT(r, a, b), "compare_node: contract clause C19_CMP_POST_LIGHT (result in {-1,0,1}; equal nodes are both empty or both non-empty)");
     CANARY("compare_node end reachable");
 }
